@@ -453,6 +453,17 @@ impl Rasn {
         )
     }
 
+    /// The Rust type of the payload of a CHOICE alternative, as the variant declares it
+    pub(crate) fn choice_option_type(
+        &self,
+        option: &ChoiceOption,
+        parent_name: &str,
+    ) -> Result<TokenStream, GeneratorError> {
+        let name = self.to_rust_enum_identifier(&option.name);
+        self.format_member_or_option(option, parent_name, &name, TokenStream::new(), None)
+            .map(|formatted| formatted.formatted_type_name)
+    }
+
     pub(crate) fn format_choice_option(
         &self,
         name: Ident,
